@@ -12,7 +12,10 @@ typedef struct {
   unsigned fillarg;  // bits (F_I64 / F_DBLINT / F_RATIO: |ratio| < 2^fillarg), ignored otherwise
   double fscale;     // F_RATIO: values are ratio * fscale (fscale a power of two)
   uint64_t zero_block;  // if non-zero: each block of zero_block elements is entirely zero with probability 1/4
+  uint64_t live_limbs;  // INOUT limb vectors of in-place calls with res_size > a_size: limbs >= live_limbs+... are output-only;
+                        // 0 = every limb is input. Stored as (number of input limbs + 1)
   size_t bytes, align;
+  size_t live_bytes1;   // raw INOUT buffers of in-place calls: (number of input bytes + 1); the rest is output-only. 0 = all input
   int is_zvec;       // int64 limb vector with stride padding
   uint64_t n, size, sl;
 } bufspec_t;
